@@ -218,11 +218,8 @@ AgreesWithReference ==
 EnforcesWritten == (DDone /\ Accepted) => (Faithful(SRC) \/ Repeated(SRC))
 
 \* C08 last clause on the model: the generated tests fail exactly when they must
-\* (candidate: equal expression bounds with an exclusive side pass `upper >= lower`)
-KnownTestGap(src) ==
-  LET val == OpVal(src) IN
-  \E i \in Rules(val, LowerKinds) : \E j \in Rules(val, UpperKinds) :
-     val[i].b = val[j].b /\ (val[i].w = "greater" \/ val[j].w = "less")
+\* (equal expression bounds with an exclusive side used to pass `upper >= lower`; repaired, no candidate is left)
+KnownTestGap(src) == FALSE
 GeneratedTestsCatch ==
   (DDone /\ Accepted /\ IsG(SRC)) =>
      \/ KnownTestGap(SRC)
